@@ -81,8 +81,6 @@ Definition qi_b (ths honest byz : list N) (tbl : wtable) : bool :=
   let w := weight_of univ tbl in
   nodup_b univ &&
   forallb (fun t => N.ltb 0 t) [nth 0 ths 0; nth 1 ths 0; nth 2 ths 0; nth 3 ths 0; nth 4 ths 0; nth 5 ths 0] &&
-  nodup_b (map (fun e => N.of_nat (fst (fst e)) * 1000 + N.of_nat (snd (fst e))) tbl) &&
-  forallb (fun e => Nat.ltb (snd (fst e)) 1000) tbl &&
   (* QI_same *)
   forallb (fun e => let p := fst (fst e) in let s := snd (fst e) in
                     inter_ok honest byz (w p s) (w p s) (step_threshold ths s) (step_threshold ths s)) tbl &&
